@@ -183,6 +183,21 @@ def check_pairs(ctx, dec, enc, b, rmeta, spec, origin):
             ctx.violate(sig, 'subset(%r) -> encode -> decode raised %s: %s' % (list(I), type(e).__name__, str(e)[:120]),
                         cspec, exc=e)
             continue
+        # "gives a valid message": framed as FM-94 prescribes (independent frame parser; even section lengths up to edition 3)
+        out = nb.serialized_bytes
+        try:
+            fr = R.parse_frame(out)
+            bad = None
+            if out[:4] != b'BUFR' or out[-4:] != b'7777' or fr.total != len(out) or fr.end != len(out):
+                bad = 'signatures / total length'
+            elif m.edition.value <= 3 and any(fr.sections[k][1] % 2 for k in (1, 2, 3, 4) if k in fr.sections):
+                bad = 'odd section length in edition %d' % m.edition.value
+        except Exception as e:
+            bad = 'sections do not tile the message: %r' % (e,)
+        ctx.count('result_framing_checks')
+        if bad:
+            ctx.violate('subset-result-not-a-valid-message/%s' % mode, 'subset(%r): encoded result is not well framed: %s' % (list(I), bad), cspec)
+            continue
         ctx.count('source_digest_checks')
         if digest(m) != dg0:
             ctx.violate('source-message-modified/%s' % mode, 'the source message changed after subset(%r)+encode' % (list(I),), cspec)
